@@ -280,3 +280,14 @@ package tso
 //@   requires am != nil && leadership != nil
 //@   ensures [window-under-its-own-leader-key] typeisptr(result, LocalTSOAllocator) && asptr(result, LocalTSOAllocator) != nil && asptr(result, LocalTSOAllocator).timestampOracle != nil && asptr(result, LocalTSOAllocator).timestampOracle.rootPath == leadership.leaderKey && asptr(result, LocalTSOAllocator).leadership == leadership
 //@   modifies nothing
+
+// loadTimestamp (C02: a new holder starts above the LARGEST stored window, for every stored window including one far in
+// the future): the maximum over the stored windows is taken by comparing times (time.Time.After), never by subtracting
+// UnixNano readings - against the zero time that difference wraps for every window later than 2046-12-09 and the window
+// was ignored.
+//@ func (*timestampOracle).loadTimestamp
+//@   props C02
+//@   at After 1 assert [the-stored-window-is-compared-with-the-maximum-so-far-as-a-time] recv == tsWindow && arg0 == maxTSWindow
+//@   ensures [no-wrapping-subtraction-decides-the-maximum] count("subRealTime") == old(count("subRealTime"))
+//@   option nosafety
+//@   modifies ghost evres, ghost etcdhas, ghost etcdval, ghost etcdlease, ghost etcdn, ghost etcdhas0, ghost etcdval0, ghost etcdlease0
